@@ -24,6 +24,32 @@ example : potential Board.start .white = 10300 ∧ potential Board.start .black 
 theorem chess_eval_bounded_start : EvalBoundedFrom chessGame Board.start :=
   chess_eval_bounded Board.start RCE.Proofs.BoardKey.start_ok'.2 (by decide +kernel)
 
+/-- the allowance `Search::search` gives the mover comes out of the mover's OWN clock and increment — at most its
+    remaining time plus its increment — whatever the opponent's clock and increment say (the timing clause of C09,
+    model part: "within the time the limits allow") -/
+theorem allowance_within_own_clock (g : GoLimits) (turn : Color) :
+    (g.toLimits turn).timer ≤ (match turn with
+      | .white => g.wtime.getD 0 + g.winc.getD 0
+      | .black => g.btime.getD 0 + g.binc.getD 0) := by
+  cases turn <;> simp only [GoLimits.toLimits] <;> omega
+
+/-- a clock limit is noticed at the first consultation that reads the allowance or more (below the ply cap; a node
+    budget hit at the same moment interrupts as well); `C13.no_nodes_after_abort` then says no further node is visited -/
+theorem clock_expiry_noticed {M : Type} (env : Env) (st : St M) (hp : st.ply ≠ 255)
+    (hm : env.limits.movetime = none)
+    (htc : env.limits.timeControl = true) (ht : env.limits.timer ≤ env.clock st.clockReads) :
+    (limitsExceeded env st).1 = true := by
+  unfold limitsExceeded
+  simp [hp, hm, htc, ht]
+  split
+  · split <;> rfl
+  · rfl
+
+/-- non-vacuity: `go btime 300 binc 0 wtime 600000 winc 20000` with Black to move allows 15 ms, not 10 s -/
+example : (({ btime := some 300, binc := some 0, wtime := some 600000, winc := some 20000 } : GoLimits).toLimits .black).timer = 15 := by decide
+
 end RCE.Props.C09
 #print axioms RCE.Props.C09.chess_eval_bounded
 #print axioms RCE.Props.C09.chess_eval_bounded_start
+#print axioms RCE.Props.C09.allowance_within_own_clock
+#print axioms RCE.Props.C09.clock_expiry_noticed
